@@ -896,8 +896,10 @@ def async_part(job, r):
                     elif o[2] != hashes[i].hex():
                         cv.viol('fault:%s:wrong-response' % kind, 'request %d completed with other content' % i, '')
                 else:
-                    if i in whole and off < L:
-                        pass     # acceptable: reply was delivered but the close was noticed in the same run (documented behaviour: queue is drained first)
+                    if i in whole:
+                        # its reply arrived whole before the connection ended: "the upper layer receives exactly the sequence of complete PDUs contained in the
+                        # stream" - the reply has to be delivered even if the client sees reply and end of the connection in one and the same run
+                        cv.viol('fault:%s:whole-reply-before-the-cut-not-delivered' % kind, 'request %d ended with error %#x although its reply lies wholly before stream offset %d where the connection was cut (%s)' % (i, o[1], off, kind), 'cut=%d' % off)
                     if o[1] not in NET_ERRS and i not in whole:
                         cv.viol('fault:%s:error-class:%#x' % (kind, o[1]), 'request %d ended with error %#x, expected a network class error after the connection was cut' % (i, o[1]), '')
         if ci == 0:
